@@ -425,3 +425,33 @@ def _wire_close(x, y, slack):
         elif a != b:
             return False
     return True
+
+
+def drop_self_moves(code):
+    """remove `MOVE x x` of a variable onto itself and re-express the relative jump offsets.
+    `Parser._rvalue` omits the instruction when source and destination are THE SAME OBJECT
+    (`value is not dest`), which for variable names holds exactly when CPython hands out a cached
+    string (one-character names); the instruction is a no-op in the VM either way, so the tie
+    compares programs modulo it."""
+    keep = []
+    new_index = {}
+    for i, ins in enumerate(code):
+        new_index[i] = len(keep)
+        parts = ins.split('|')
+        if parts[0] == 'MOVE' and len(parts) == 3 and parts[1] == parts[2] and parts[1].startswith('s:'):
+            continue
+        keep.append((ins, i))
+    new_index[len(code)] = len(keep)
+    out = []
+    for k, (ins, old) in enumerate(keep):
+        parts = ins.split('|')
+        if parts[0] == 'JUMP' and len(parts) == 3 and parts[2].startswith('i:'):
+            try:
+                target = old + int(parts[2][2:])
+            except ValueError:
+                target = None
+            if target in new_index:
+                parts[2] = 'i:{}'.format(new_index[target] - k)
+                ins = '|'.join(parts)
+        out.append(ins)
+    return out
